@@ -57,6 +57,13 @@ def obligations(tier):
                 if tier == 'quick' and (a, b) not in (('call:ok', 'call:ok'), ('call:ok', 'call:perr'), ('call:boom', 'call:unknown')):
                     continue
                 obs.append({'h': 'batch', 'els': [a, b], 'idt': idt, 'mbs': 'unset', 'disp': d, '_weight': 30})
+        # an integer id next to its numeric-looking string form (distinct ids), at every pair of positions of a 2..3 batch
+        for iv, sv in ((1, '1'), (0, '0'), (-7, '-7')):
+            for els, idt in ((['call:ok', 'call:ok'], [['const', iv], ['const', sv]]),
+                             (['call:ok', 'call:perr'], [['const', sv], ['const', iv]]),
+                             (['call:ok', 'notif:ok', 'call:boom'], [['const', iv], 'i', ['const', sv]]),
+                             (['call:ok', 'call:ok', 'call:ok'], [['const', iv], ['const', sv], ['const', iv]])):
+                obs.append({'h': 'batch', 'els': els, 'idt': idt, 'mbs': 'unset', 'disp': d, '_weight': 30})
     return obs
 
 
